@@ -38,7 +38,7 @@ TRIGGERS = {
     "ooo-spec-error": lambda v, f: v in SUPER and f["err_text"] and f["branches"],
     # MVP-6.2's transaction map holds ONE uncommitted write per register: a wrong-path write of a register replaces an older,
     # still uncommitted right-path write of it, and the rollback then drops both (the right-path value is lost)
-    "ooo-txmap": lambda v, f: v == "mvp6-2" and f["ld_text"] and f["cbr_text"] >= 1 and f["static_waw"],
+    "ooo-txmap": lambda v, f: v == "mvp6-2" and f["ld_text"] and f["cbr_text"] >= 1 and f["txmap_risk"],
     # C12 only: speculative execution makes the cycle count depend on operand values through the cache footprint of
     # wrong-path loads (their addresses are computed from register values) - the README's Spectre demonstration
     "spec-timing": lambda v, f: v in SUPER and f["ld_text"] and f["branches"],
